@@ -59,12 +59,21 @@ func (c *Calcium) doCreateWorkloads(ctx context.Context, opts *types.DeployOptio
 	)
 
 	_ = c.pool.Invoke(func() {
+		var processingCommits map[string]wal.Commit
 		defer func() {
 			cctx, cancel := context.WithTimeout(utils.NewInheritCtx(ctx), c.config.GlobalTimeout)
 			for nodename := range deployMap {
 				processing := opts.GetProcessing(nodename)
 				if err := c.store.DeleteProcessing(cctx, processing); err != nil {
 					logger.Errorf(ctx, err, "delete processing failed for %s", nodename)
+					continue
+				}
+				// commit the log entry only once the marker is gone, so that a crash
+				// in between is still repaired by recovery
+				if commit, ok := processingCommits[nodename]; ok && commit != nil {
+					if err := commit(); err != nil {
+						logger.Errorf(ctx, err, "commit wal failed: %s, %s", eventProcessingCreated, nodename)
+					}
 				}
 			}
 			close(ch)
@@ -80,16 +89,6 @@ func (c *Calcium) doCreateWorkloads(ctx context.Context, opts *types.DeployOptio
 			}
 		}()
 
-		var processingCommits map[string]wal.Commit
-		defer func() {
-			for nodename := range processingCommits {
-				if commit, ok := processingCommits[nodename]; ok && commit != nil {
-					if err := commit(); err != nil {
-						logger.Errorf(ctx, err, "commit wal failed: %s, %s", eventProcessingCreated, nodename)
-					}
-				}
-			}
-		}()
 
 		_ = utils.Txn(
 			ctx,
